@@ -10,6 +10,7 @@ require (
 require (
 	github.com/mattn/go-colorable v0.1.14 // indirect
 	github.com/mattn/go-isatty v0.0.20 // indirect
+	golang.org/x/net v0.34.0
 	golang.org/x/sys v0.31.0 // indirect
 )
 
